@@ -1571,22 +1571,25 @@ namespace awkward {
           tags_.length(),
           offsetsraws.data());
         util::handle_error(err2, classname(), identities_.get());
+        // a flattened content may itself be a union
+        UnionArray8_64 out(Identities::none(),
+                           util::Parameters(),
+                           totags,
+                           toindex,
+                           contents);
         return std::pair<Index64, ContentPtr>(
           tooffsets,
-          std::make_shared<UnionArray8_64>(Identities::none(),
-                                           util::Parameters(),
-                                           totags,
-                                           toindex,
-                                           contents));
+          out.simplify_uniontype(true, false));
       }
       else {
+        UnionArrayOf<T, I> out(Identities::none(),
+                               util::Parameters(),
+                               tags_,
+                               index_,
+                               contents);
         return std::pair<Index64, ContentPtr>(
           Index64(0),
-          std::make_shared<UnionArrayOf<T, I>>(Identities::none(),
-                                               util::Parameters(),
-                                               tags_,
-                                               index_,
-                                               contents));
+          out.simplify_uniontype(true, false));
       }
     }
   }
